@@ -61,6 +61,7 @@ type Case struct {
 	After *V     `json:"after,omitempty"` // list receiver after the call
 	Want  *V     `json:"want,omitempty"` // gomis: what the Go oracle expects
 	WantA *V     `json:"wanta,omitempty"`
+	Kw    []V    `json:"kw,omitempty"`    // call: keyword arguments, flattened: name (str), value, name, value ...
 	Key   string `json:"key,omitempty"`   // sort: name of the key= function ("" = none)
 	Rev   string `json:"rev,omitempty"`   // sort: reverse= "true" | "false" | "" (omitted)
 	Class string `json:"class,omitempty"` // generator class (distribution)
@@ -79,6 +80,9 @@ func vFloat() V            { return V{T: "float"} }
 func vF(f float64) V       { return V{T: "float", F: strconv.FormatFloat(f, 'g', -1, 64)} }
 func vRange(a, b, c int64) V { return V{T: "range", R: []int64{a, b, c}} }
 func vIter(kind, s string) V { return V{T: "iter", M: kind, S: hex.EncodeToString([]byte(s))} }
+
+// vDict: a dict with string keys; L holds key, value, key, value ...
+func vDict(kv ...V) V { return V{T: "dict", L: kv} }
 
 func (v V) str() string { b, _ := hex.DecodeString(v.S); return string(b) }
 func (v V) float() float64 {
@@ -151,6 +155,12 @@ func toStarlark(v V) starlark.Value {
 		return el
 	case "float":
 		return starlark.Float(v.float())
+	case "dict":
+		d := starlark.NewDict(len(v.L) / 2)
+		for i := 0; i+1 < len(v.L); i += 2 {
+			d.SetKey(toStarlark(v.L[i]), toStarlark(v.L[i+1]))
+		}
+		return d
 	case "iter":
 		var recv starlark.HasAttrs = starlark.String(v.str())
 		name := v.M
@@ -308,7 +318,11 @@ func run1(c *Case) {
 				c.Obs = V{T: "err", M: "no such method"}
 				return
 			}
-			c.Obs = callSafe(m, args)
+			var kwargs []starlark.Tuple
+			for i := 0; i+1 < len(c.Kw); i += 2 {
+				kwargs = append(kwargs, starlark.Tuple{starlark.String(c.Kw[i].str()), toStarlark(c.Kw[i+1])})
+			}
+			c.Obs = callSafeKw(m, args, kwargs)
 		}()
 		if c.X.T == "list" {
 			a := fromStarlark(x)
@@ -428,6 +442,9 @@ func (s *sink) do(c Case) {
 		pe = s.pyEvery[""]
 	}
 	// deterministic stride with a per-class random phase
+	if (c.Op == "call" && c.Name == "format") || (c.Op == "bin" && c.Name == "%") {
+		ce = 0 // no Coq model: Go copy of the specification and CPython
+	}
 	if c.Op == "builtin" && (c.Name == "list" || c.Name == "tuple") {
 		ce = 0 // no Coq model: Go copy of the specification and CPython
 	}
@@ -488,6 +505,8 @@ func main() {
 	lap("sort")
 	genIterables(s, quick)
 	lap("iterables")
+	genFormat(s, quick)
+	lap("format")
 	riskyParent(s, quick, *seed)
 	lap("risky")
 	type kv struct {
